@@ -28,7 +28,7 @@ ASSUMPTIONS = [
     "(other set-ups) nothing is asserted about the side, because the comparison is decided by rounding",
     "rows of the heavy quark itself (intrinsic contributions, not subject to the pair threshold) are not asserted",
 ]
-BUDGET = {"quick": {"examples": 2400, "wall": 420}, "thorough": {"examples": 60000, "wall": 2400}}
+BUDGET = {"quick": {"examples": 2400, "wall": 420}, "thorough": {"examples": 150000, "wall": 2400}}
 MANDATORY = {
     t: ["nontrivial", "clause:kernel", "clause:nc", "clause:cc", "clause:missing", "side:at", "side:below", "side:above", "delta:ulp", "delta:1e-6", "order:2", "cc:lo-row", "nc:support"]
     for t in ("quick", "thorough")
